@@ -71,6 +71,8 @@ def render(prog, form1="plain", form2="arith", as_kw=True, qualify=None, join="j
         b = prog["branch2"][0]
         sel += " union all select %s from %s" % (", ".join(b["cols"]), tbl_text(b, qualify))
     tgt = (qualify + "." if qualify else "") + "tgt"
+    if prog.get("tk"):
+        tgt = "s.tgt"
     if prog["kind"] == "ctas":
         return "create table %s as %s" % (tgt, sel)
     if prog["kind"] == "insert_cols":
@@ -80,4 +82,7 @@ def render(prog, form1="plain", form2="arith", as_kw=True, qualify=None, join="j
 
 def metadata_of(prog):
     cols = {"s.a": ["c", "d"], "s.b": ["c", "e"]}
-    return {t: cols.get(t, ["c"]) for t in prog["known"]}
+    md = {t: cols.get(t, ["c"]) for t in prog["known"]}
+    if prog.get("tk"):
+        md["s.tgt"] = ["t1", "t2", "t3"][:len(prog["items"])]
+    return md
